@@ -23,10 +23,10 @@ func checkC01(c *Ctx) {
 	m.checkKeySites()
 	m.checkConfinement()
 	checkNotRunningErrors(c) // every cache API call goes through the loop and returns the loop's reply (no fast path around the owner)
-	c.floor("T-TABLE(doUpdate)", 8, "doUpdate has 9 paths")
-	c.floor("T-TABLE(doSync.item)", 8, "doSync item step has 9 in-loop paths")
+	c.floor("T-TABLE(doUpdate)", 4, "doUpdate has 9 paths; the floor is about half the pattern count of the pinned tree so that a refactoring that merges paths does not trip it")
+	c.floor("T-TABLE(doSync.item)", 4, "doSync item step has 9 in-loop paths; the floor is about half the pattern count of the pinned tree so that a refactoring that merges paths does not trip it")
 	c.floor("T-TABLE(doSync.sweep)", 3, "sweep: exit, in set, not in set")
-	c.floor("T-TABLE(_cache.run)", 7, "6 arms, get arm twice")
+	c.floor("T-TABLE(_cache.run)", 6, "6 arms, get arm twice; the floor is about half the pattern count of the pinned tree so that a refactoring that merges paths does not trip it")
 	c.floor("T-CONFINE(_cache)", 8, "2 fields x accessor functions + call sites")
 }
 
@@ -48,7 +48,8 @@ func checkC06(c *Ctx) {
 	m.checkDoUpdate() // parent events pass through the version-aware update: replays are idempotent
 	m.checkDoSync()
 	m.checkDoRefilter()
-	c.floor("T-TABLE(filterSubscription.run)", 20, "23 iteration paths + initial state")
+	checkCombinators(c) // "its filter applied to its parent": the filter value cannot change under the subscription (constructors copy their arguments)
+	c.floor("T-TABLE(filterSubscription.run)", 12, "23 iteration paths + initial state; the floor is about half the pattern count of the pinned tree so that a refactoring that merges paths does not trip it")
 }
 
 func init() {
@@ -71,7 +72,7 @@ func checkC03(c *Ctx) {
 	checkErrPropagation(c, "T-SHAPE(list-helpers)", "", "extractList", "meta.ExtractList")
 	checkBuilderFlows(c)
 	checkControllerAPI(c)
-	c.floor("T-TABLE(controller.run)", 14, "14 iteration paths + initial state")
+	c.floor("T-TABLE(controller.run)", 8, "14 iteration paths + initial state; the floor is about half the pattern count of the pinned tree so that a refactoring that merges paths does not trip it")
 	c.floor("T-SHAPE(list-helpers)", 3, "executeList, listResourceVersion, extractList")
 }
 
@@ -88,8 +89,16 @@ func checkC04(c *Ctx) {
 	checkSessionFlows(c)
 	checkClientRequestFlows(c) // the resume version reaches the server: each Watch call encodes its own options into a fresh request
 	checkControllerTable(c) // re-read of watcher.events() per iteration, update+distribute of every watch event
-	c.floor("T-TABLE(_watcher.run)", 9, "8 iteration paths, closure, initial state")
-	c.floor("T-TABLE(_watchSession.run)", 9, "8 distinct cases + prelude")
+	// a session that fails to connect must still complete, or the watcher never schedules the retry
+	var wruns []*runInfo
+	for _, r := range findRunFuncs(c.P, []string{""}) {
+		if n := fnName(r.fn); n == "_watchSession.run" || n == "_watcher.run" {
+			wruns = append(wruns, r)
+		}
+	}
+	checkLifecycleOnce(c, wruns)
+	c.floor("T-TABLE(_watcher.run)", 6, "8 iteration paths, closure, initial state; the floor is about half the pattern count of the pinned tree so that a refactoring that merges paths does not trip it")
+	c.floor("T-TABLE(_watchSession.run)", 5, "8 distinct cases + prelude; the floor is about half the pattern count of the pinned tree so that a refactoring that merges paths does not trip it")
 }
 
 func init() {
@@ -105,8 +114,8 @@ func checkC13(c *Ctx) {
 	checkListGoroutines(c)
 	checkTickerTable(c)
 	checkPeriodFlow(c)
-	c.floor("T-TABLE(_lister.run)", 5, "4 arms + initial phase")
-	c.floor("T-TABLE(_ticker.run)", 6, "5 cases + initial state")
+	c.floor("T-TABLE(_lister.run)", 4, "4 arms + initial phase; the floor is about half the pattern count of the pinned tree so that a refactoring that merges paths does not trip it")
+	c.floor("T-TABLE(_ticker.run)", 4, "5 cases + initial state; the floor is about half the pattern count of the pinned tree so that a refactoring that merges paths does not trip it")
 	c.floor("T-FLOW(period)", 6, "period stores and uses")
 }
 
@@ -135,7 +144,7 @@ func checkC16(c *Ctx) {
 	for _, r := range rels {
 		checkTypedMonitor(c, r)
 	}
-	c.floor("T-TABLE(monitor.run)", 9, "3 prelude + 6 loop cases")
+	c.floor("T-TABLE(monitor.run)", 5, "3 prelude + 6 loop cases; the floor is about half the pattern count of the pinned tree so that a refactoring that merges paths does not trip it")
 	c.floor("T-WHO(Handler)", 5, "4 callback sites")
 	c.floor("T-SHAPE(typed-monitor)", 4, "4 slots")
 }
@@ -270,6 +279,7 @@ func checkC10(c *Ctx) {
 	checkSubscriptionTable(c)
 	checkFilterSubscriptionTable(c) // "the caches stay current": every ok∧ready parent event is applied, whatever the state of the consumer's buffer
 	checkFSubDistribute(c)
+	checkPublisherFanout(c) // a consumer whose buffer is full must not cut off the subscribers after it in the fan-out
 	checkHandlerCallers(c)
 	checkEventPathSingleSender(c)
 }
@@ -302,13 +312,14 @@ func checkC17(c *Ctx) {
 func init() {
 	props = append(props, propSpec{ID: "C19", Level: "other", Run: checkC19,
 		Explanation: "Sibling-shape comparison of the seven PodsFilter functions against one reference shape (sorted copy of the sources with the (namespace,name) comparator; per source exactly one element And(NSName(<that source's namespace>,\"\"), selector-or-template-fallback); result Or over all elements), the ingress services filter (default backend and every rule path of every ingress contribute (ingress namespace, service name), ingresses contribute independently, no early exit), and the node / involved-object / selector-match filters (comma-ok kind guard, exact field pairing).",
-		Assumptions: []string{"label-selector matching itself is delegated (C18)"}})
+		Assumptions: []string{"Kubernetes' own labels.Selector.Matches is trusted; the combinators the workload filters are built from (And, Or, NSName, Labels, LabelSelector) are checked with C18's rules as part of this property too"}})
 }
 
 func checkC19(c *Ctx) {
 	checkPodsFilters(c, false)
 	checkIngressFilter(c)
 	checkKindFilters(c)
+	checkCombinators(c) // every workload filter is And(NSName(ns,""), Labels/LabelSelector(...)) under Or: their Accept decides the selection
 	c.floor("T-SHAPE(PodsFilter)", 35, "7 siblings x 5 obligations")
 	c.floor("T-SHAPE(ServicesFilter)", 5, "default backend, paths table, rules, ServicesFilter")
 	c.floor("T-SHAPE(kind-filter)", 5, "node x2, involved x2, selector-match")
@@ -351,7 +362,13 @@ func checkC20(c *Ctx) {
 		checkTypedMonitor(c, r)
 	}
 	checkTypedClients(c, typedRels(c))
-	checkErrPropagation(c, "T-SIBLING(NewClient)", "client", "makeResourceListFn$1", "rest.Request.Do")
+	if mk := c.P.Func("client", "makeResourceListFn"); mk != nil {
+		if cl := returnedClosure(mk); cl != nil {
+			checkErrPropagationFn(c, "T-SIBLING(NewClient)", "client", "makeResourceListFn$1", cl, "rest.Request.Do")
+		} else {
+			c.undecided("T-SIBLING(NewClient)", "client:makeResourceListFn/returned-closure", c.P.fnPos(mk), "makeResourceListFn does not build and return exactly one closure")
+		}
+	}
 	c.floor("T-INSTANCE(typed)", 13, "12 typed packages")
 	c.floor("T-INSTANCE(join)", 9, "8 generated joins")
 	c.floor("T-SIBLING(NewClient)", 15, "12 clients + ForResource + 2 closures")
@@ -389,8 +406,8 @@ func checkC02(c *Ctx) {
 	checkFilterSubscriptionTable(c)
 	checkFSubDistribute(c)
 	checkEventPathSingleSender(c)
-	c.floor("T-TABLE(doUpdate)", 8, "doUpdate paths")
-	c.floor("T-TABLE(doSync.item)", 8, "doSync item paths")
+	c.floor("T-TABLE(doUpdate)", 4, "doUpdate paths; the floor is about half the pattern count of the pinned tree so that a refactoring that merges paths does not trip it")
+	c.floor("T-TABLE(doSync.item)", 4, "doSync item paths; the floor is about half the pattern count of the pinned tree so that a refactoring that merges paths does not trip it")
 	c.floor("T-SHAPE(distribute)", 2, "controller + filterSubscription distributors")
 }
 
@@ -403,7 +420,8 @@ func checkC07(c *Ctx) {
 	m.checkDoSync()
 	m.checkDoRefilter()
 	checkFilterEquality(c)
-	c.floor("T-TABLE(filterSubscription.run)", 20, "iteration paths")
+	checkCombinators(c) // a filter held by a subscription is an immutable value: constructors copy, Accept is the documented function of it
+	c.floor("T-TABLE(filterSubscription.run)", 12, "iteration paths; the floor is about half the pattern count of the pinned tree so that a refactoring that merges paths does not trip it")
 	c.floor("T-COVERS(Equals)", 11, "comparable filters")
 }
 
@@ -418,6 +436,8 @@ func checkC08(c *Ctx) {
 	checkWatcherTable(c)
 	checkGeneratedJoinShape(c)
 	checkMonitorTable(c)
+	checkListHelpers(c) // a failed first list must arrive at the controller as a failure, or it would sync an empty list and signal readiness
+	checkErrPropagation(c, "T-SHAPE(list-helpers)", "", "extractList", "meta.ExtractList")
 	c.floor("T-FLOW(ready)", 9, "ready accessors and forwarders")
 	c.floor("T-WHO(close-readych)", 3, "2 closing functions + site count")
 }
@@ -425,6 +445,7 @@ func checkC08(c *Ctx) {
 func checkC14(c *Ctx) {
 	checkFilterSubscriptionTable(c) // "the whole subtree shuts down": every consumer leaves its loop when its parent's events close
 	checkPublisherTable(c)
+	checkPublisherFanout(c) // the publisher's drain ends only if every subscription reports its end exactly once, however it ended
 	checkSubscriptionTable(c)
 	checkMonitorTable(c)
 	checkListerTable(c)
@@ -439,7 +460,7 @@ func checkC14(c *Ctx) {
 	checkSessionFlows(c)
 	runs := findRunFuncs(c.P, []string{""})
 	checkLifecycleOnce(c, runs)
-	c.floor("T-TABLE(controller.run)", 14, "controller paths")
+	c.floor("T-TABLE(controller.run)", 8, "controller paths; the floor is about half the pattern count of the pinned tree so that a refactoring that merges paths does not trip it")
 	c.floor("T-SHAPE(list-helpers)", 3, "three helpers")
 }
 
@@ -455,6 +476,8 @@ func checkC15(c *Ctx) {
 	m.checkDoList()
 	m.checkRunLoop()
 	m.checkKeySites()
+	m.checkDoUpdate() // reads never go backwards: a version that is not newer never replaces the cached one
+	m.checkDoSync()
 	checkNotRunningErrors(c)
 	c.floor("T-CONFINE(_cache)", 8, "field accessors and call sites")
 	c.floor("T-BLOCK(cache-handlers)", 6, "6 handler/helper functions")
